@@ -32,7 +32,7 @@ META = {
                     "numbers < 2^63; the operation sequences only contain calls whose non-crash behaviour C13 already judges"],
 }
 REQUIRED_ORACLES = ["crash-point-state", "normal-close-state", "reopen-usable", "real-process-death", "emulation-agrees-with-real-death"]
-REQUIRED_COUNTERS = ["renumberings_of_a_journal_with_more_than_1000_rows"]
+REQUIRED_COUNTERS = ["renumberings_of_a_journal_with_more_than_1000_rows", "renumberings_of_a_journal_larger_than_the_page_cache"]
 NSHARDS = 16
 N = {"quick": 60, "thorough": 1500}
 NSUB = {"quick": 2, "thorough": 10}     # sequences per shard that also get the real-subprocess "interpreter exit" ending
@@ -261,22 +261,27 @@ def run_shard(spec, acc):
             one_sequence(acc, ctl, shim, base, ops, dirs, cid, with_subprocess=c < spec["nsub"], with_fork=c < spec["nfork"])
         # a journal with more than a thousand rows per direction, then renumbering / reset: an operation that works through the
         # table in portions must still be applied entirely or not at all
-        bigs = [(1100, 40, 1, 1), (2300, 1200, 1, 1), (1500, 30, 700, 10)]
-        for bi, (nout, nin, so, si_) in enumerate(bigs):
-            cid = f"big:{nout}:{nin}:{so}:{si_}"
-            if bi % spec["nshards"] != shard or not acc.want(cid) or (spec.get("tier") == "quick" and bi > 0):
+        # (the last two: several megabytes of frames, more than SQLite keeps in its page cache - a renumbering that removes them has to
+        #  write pages to the file before it commits, and only the on-disk rollback journal can take them back after a death)
+        bigs = [(1100, 40, 1, 1, 0), (2300, 1200, 1, 1, 0), (1500, 30, 700, 10, 0), (900, 20, 1, 1, 7000), (1300, 10, 3, 1, 9000)]
+        for bi, (nout, nin, so, si_, fat) in enumerate(bigs):
+            cid = f"big:{nout}:{nin}:{so}:{si_}:{fat}"
+            if bi % spec["nshards"] != shard or not acc.want(cid) or (spec.get("tier") == "quick" and bi not in (0, 3)):
                 continue
             rnd = random.Random(f"{spec['seed']}:C08:big:{bi}")
             ops = [["load", 0], ["load", 1], ["persist", 1, 1, 1, payload(rnd, 1, "other").hex()]]
             for q in range(1, nout + 1):
+                if fat:
+                    ops.append(["persist", 0, 1, q, fixwire.msg("B", q, "S", "T", [(148, f"o{q}"), (58, "n" * rnd.randrange(fat - 500, fat))]).hex()])
+                    continue
                 ops.append(["persist", 0, 1, q, payload(rnd, q, "o").hex()])
             for q in range(1, nin + 1):
                 ops.append(["persist", 0, 0, q, payload(rnd, q, "i").hex()])
             k0 = len(ops)
             ops.append(["set", 0, so, si_])
             ops.append(["persist", 0, 1, so, payload(rnd, so, "after").hex()])
-            one_sequence(acc, ctl, shim, base, ops, dirs, cid, with_subprocess=False, with_fork=False, kill_from_op=k0)
-            acc.add("renumberings_of_a_journal_with_more_than_1000_rows")
+            one_sequence(acc, ctl, shim, base, ops, dirs, cid, with_subprocess=False, with_fork=bool(fat), kill_from_op=k0)   # fat: real process death (closing a connection in-process rolls back from memory)
+            acc.add("renumberings_of_a_journal_larger_than_the_page_cache" if fat else "renumberings_of_a_journal_with_more_than_1000_rows")
     finally:
         undo()
         shutil.rmtree(base, ignore_errors=True)
